@@ -49,6 +49,8 @@ pub fn generate(thorough: bool, seed: u64, part: (usize, usize), em: &mut Emitte
             let scv = r.bytes(8); let mut sc = [0u8; 8]; sc.copy_from_slice(&scv);
             let c = crate::props::c01::Case { dom: "DOM".into(), user: "user".into(), pw: "pw".into(), from_hash: false, ra: false, id: 1 + k % 2, flags: *flags, sc, ti, reply: "honest".into(), reply1: "honest".into(), pre: String::new() };
             crate::props::c01::run(em, &c);
+            // the same on an Ntlm object that already completed an exchange: the keys are those of *this* session
+            if k < 2 { let c2 = crate::props::c01::Case { pre: "same".into(), ..c.clone() }; crate::props::c01::run(em, &c2); }
         }
     }
     let keys = |r: &mut Rng| -> [Vec<u8>; 4] { [r.bytes(16), r.bytes(16), r.bytes(16), r.bytes(16)] };
